@@ -141,8 +141,10 @@ pub fn gen_conf(r: &mut Rng, index: u64) -> Conf {
         (u, o, up, op)
     } else {
         let valid: Vec<&(&str, Option<&str>)> = PAIRS.iter().filter(|p| p.1.is_some()).collect();
-        let (u, up) = *r.pick(&valid);
-        let (o, op) = if r.chance(1, 5) { (*u, *up) } else { **r.pick(&valid) };
+        // passwords whose prepared form exceeds the 127 significant bytes get their own share of the cases
+        let long: Vec<&(&str, Option<&str>)> = valid.iter().filter(|p| p.1.map_or(false, |x| x.len() > 127)).cloned().collect();
+        let (u, up) = if r.chance(1, 5) { **r.pick(&long) } else { **r.pick(&valid) };
+        let (o, op) = if r.chance(1, 5) { (u, up) } else if r.chance(1, 5) { **r.pick(&long) } else { **r.pick(&valid) };
         (u.to_string(), o.to_string(), up.unwrap().as_bytes().to_vec(), op.unwrap().as_bytes().to_vec())
     };
     let mut file_key = [0u8; 32];
